@@ -128,6 +128,20 @@ TRUSTED["C19"] = [
     "f-strings as injective builders of (template, values); strings as an uninterpreted sort with distinct literals",
 ]
 
+TRUSTED["C01"] = [
+    "scipy.linalg.eig(A, left=True) as an uninterpreted kernel of the matrix term (eigenvalues, left and right eigenvectors; entries non-finite only via their flags)",
+    "complex logarithm, square root and pi as axiomatised / uninterpreted functions; |z| = sqrt(re^2 + im^2)",
+    "np.argmax as a first-maximiser contract; np.dot at the matrix-term level when an operand is a kernel result",
+    "modular use of the ac2mp contract at its call site in SSI_poles",
+]
+
+TRUSTED["C05"] = [
+    "numpy.linalg.eig / numpy.linalg.solve as uninterpreted kernels of their matrix terms; complex logarithm, sqrt, pi as for C01",
+    "lazy-sum calculus for C Q (blanked eigenvectors make the product non-finite: witnessed NaN flags)",
+    "itertools.zip_longest over a concrete number of lists of symbolic lengths; np.array of a list of equal-width tuples",
+    "havoc-flow contracts of rmfd2ac / ac2mp_poly at their call sites in pLSCF_poles (their own contracts are proved separately)",
+]
+
 ASSUMPTIONS = {
     "C09": [
         "a mode-shape vector in a pole table is either entirely non-finite or entirely finite",
@@ -171,7 +185,18 @@ ASSUMPTIONS["C15"] = ["setups per PoSER constructor enumerated 0..3 exhaustively
 ASSUMPTIONS["C19"] = ["flatten_sns_names: number of setups enumerated (2); names per setup, number and positions of references symbolic",
                       "everything that goes through pandas (check_on_geo1/2, dfphi_map_func, def_geo1/2) is NOT proved: bounded stand-in on crafted table sets, labelled bounded"]
 
+ASSUMPTIONS["C01"] = ["SSI_poles: step == 1, no uncertainty propagation (calc_unc=False); model order and channel count symbolic; the realisation hands over one (ii x ii, Nch x ii) pair per order",
+                      "exact recovery of the system's parameters is NOT proved: bounded stand-in on synthetic free-vibration data (labelled bounded)"]
+
+ASSUMPTIONS["C05"] = ["pLSCF_poles: number of model orders enumerated (2 and 3); channel and reference counts symbolic; rmfd2ac / ac2mp_poly: block count, channel count, state dimension symbolic",
+                      "recovery of the coefficients of an exact right matrix fraction is NOT proved: bounded stand-in (labelled bounded)"]
+
 NOT_DECIDED = {
+    "C01": ["that order 2m contains exactly the system's m conjugate pairs (shift-invariance theorem + floating-point conditioning): bounded stand-in only",
+            "the realisation routines SSI / SSI_fast themselves (SVD, QR, pseudo-inverse): exercised by the bounded stand-in, not under a deductive contract",
+            "the hard-criteria filtering between SSI_poles and the stored tables is C09's subject"],
+    "C05": ["that pLSCF's normal equations reproduce the coefficients (least-squares theorem + conditioning): bounded stand-in only",
+            "the 'cor' shift of the poles by 1/tau is taken as the code writes it (the property speaks about the plain map)"],
     "C19": ["validation completeness, re-ordering to the sensor order, zero-based indices, None for omitted sheets and the mapping of a shape to points for ALL tables: "
             "only the bounded stand-in speaks about them (pandas has no model here)",
             "the displayed displacement (value x sign, plot_mode) and what matplotlib draws",
